@@ -187,6 +187,17 @@ def extract_params(units):
                                 # `params().m` (AMGCL_PARAMS_IMPORT_VALUE): the member of the same name of a default-constructed temporary
                                 own = dflt is not None and dflt['k'] in ('mem', 'dmem') and dflt.get('n') == m and dflt.get('b') is not None \
                                     and unwrap(dflt['b']) is not None and unwrap(dflt['b'])['k'] not in ('ref', 'this', 'mem', 'dmem', 'lit')
+                                if not own and dflt is not None and dflt['k'] == 'lit':
+                                    # the same literal the default constructor initialises the member with, unconditionally, is as good
+                                    for g in u.funcs:
+                                        if g.cls == f.cls and g.j.get('ctor') and not g.params:
+                                            for gi in g.inits:
+                                                if gi.get('m') == m and gi.get('e') is not None:
+                                                    ge = unwrap(gi['e'])
+                                                    while ge is not None and ge['k'] in ('parenlist', 'ctor') and len(ge.get('a', [])) == 1:
+                                                        ge = unwrap(ge['a'][0])
+                                                    if ge is not None and ge['k'] == 'lit' and ge.get('v') == dflt.get('v') and ge.get('t') == dflt.get('t'):
+                                                        own = True
                                 if not hasattr(pf, 'import_defaults'):
                                     pf.import_defaults = {}
                                 pf.import_defaults[m] = (own, show(c['a'][1])[:60], f.where(c))
